@@ -9,7 +9,7 @@ export GOFLAGS=-mod=mod GOPROXY=off GOSUMDB=off GOTOOLCHAIN=local
 id="$prop-$name"
 wt=/tmp/seedverify/$id
 rm -rf "$wt"; mkdir -p /tmp/seedverify
-git -C /repo diff --quiet || { echo "/repo dirty"; exit 2; }
+[ -n "${SEED_VERIFY_ONLY:-}" ] || git -C /repo diff --quiet || { echo "/repo dirty"; exit 2; }
 git -C /repo worktree add --detach "$wt" HEAD -q || exit 2
 cleanup() { git -C /repo worktree remove --force "$wt" 2>/dev/null; rm -rf "$wt"; }
 trap cleanup EXIT
@@ -37,12 +37,17 @@ cd /verif
 dst=/verif/seeded/$id
 mkdir -p "$dst"
 cp "$src/patch.diff" "$dst/patch.diff"; cp "$demo" "$dst/$(basename $demo)"; [ -f "$src/README.md" ] && cp "$src/README.md" "$dst/agent_README.md"
+if [ -n "${SEED_VERIFY_ONLY:-}" ]; then
+  # only verify and store (when /repo is in use by something else); tools/reseed_all.sh <id> fills in the verdict later
+  verdict=PENDING; nv=0; first=""
+else
 git -C /repo apply "$dst/patch.diff" || { echo "cannot apply to /repo"; exit 2; }
 VERIF_BUDGET_S=${SEED_BUDGET:-200} ./run.sh $prop quick > /tmp/seedverify/$id.check 2>&1; rc=$?
 git -C /repo checkout -- .
 nv=$(grep -c '^VIOLATION' /tmp/seedverify/$id.check)
 verdict=MISSED; [ $rc -eq 1 ] && [ $nv -gt 0 ] && verdict=CAUGHT
 first=$(grep -m1 '^VIOLATION' /tmp/seedverify/$id.check | cut -c1-400)
+fi
 python3 - "$dst" "$prop" "$id" "$verdict" "$nv" "$raceflag" "$first" <<'PY'
 import json,sys,os
 dst,prop,id_,verdict,nv,race,first=sys.argv[1:8]
